@@ -422,61 +422,47 @@ Proof.
   - discriminate.
 Qed.
 
-(* arithmetic inside its safe domain *)
+(* arithmetic (repaired pncbo): a result shape other than the left variable's raises *)
 Lemma binop_vars_ok T co other vs : forall acc vs',
   vars_okb T vs = true ->
-  forallb (fun kv => match memb (fst kv) co, lookup (fst kv) other with
-                     | false, Some w => option_eqb (list_eqb Nat.eqb) (bcast (vshape (snd kv)) (vshape w)) (Some (vshape (snd kv)))
-                     | _, _ => true end) vs = true ->
   vars_okb T acc = true -> binop_vars T co other vs acc = Ok vs' -> vars_okb T vs' = true.
 Proof.
-  induction vs as [|[k v] vs IH]; simpl; intros acc vs' Hv S Hacc H.
+  induction vs as [|[k v] vs IH]; simpl; intros acc vs' Hv Hacc H.
   - inv H. exact Hacc.
-  - apply andb_true_iff in Hv as [Hv1 Hv2]. apply andb_true_iff in S as [S1 S2]. bindinv H.
-    eapply IH; [exact Hv2|exact S2| |exact H]. apply vars_okb_aset; auto.
+  - apply andb_true_iff in Hv as [Hv1 Hv2]. bindinv H.
+    eapply IH; [exact Hv2| |exact H]. apply vars_okb_aset; auto.
     pose proof (var_okb_elim _ _ Hv1) as [V1 V2].
     destruct (memb k co); [eapply putvar_ok; eauto|].
     destruct (lookup k other) as [w|]; [|eapply putvar_ok; eauto].
-    apply opt_shape_eqb_eq in S1. rewrite S1 in E. inv E.
+    destruct (bcast (vshape v) (vshape w)) as [s|]; [|discriminate].
+    destruct (list_eqb Nat.eqb s (vshape v)) eqn:Es; [|discriminate]. apply nat_list_eqb_eq in Es. subst s. inv E.
     apply var_okb_intro; auto using attrs_ok_aset, attrs_ok_add_fill.
 Qed.
-Lemma binop_wf f other f' : wfb f = true -> safe_binop f other = true -> impl_binop f other = Ok f' -> wfb f' = true.
+Lemma binop_wf f other f' : wfb f = true -> impl_binop f other = Ok f' -> wfb f' = true.
 Proof.
-  intros W S H. apply wfb_elim in W as [W1 W2]. unfold impl_binop in H. bindinv H. inv H.
-  apply wfb_intro; auto. eapply binop_vars_ok; [exact W1 | exact S | apply vars_okb_nil | eassumption].
+  intros W H. apply wfb_elim in W as [W1 W2]. unfold impl_binop in H. bindinv H. inv H.
+  apply wfb_intro; auto. eapply binop_vars_ok; [exact W1 | apply vars_okb_nil | eassumption].
 Qed.
 
-(* ---- renameDimensions with fresh targets ---------------------------------------------------- *)
+(* ---- renameDimensions (repaired): completes => every dimension entry is found under its new name ---- *)
 Lemma memb_cons k x l : memb k (x :: l) = Nat.eqb k x || memb k l.
 Proof. reflexivity. Qed.
 
-Lemma rd_add_spec prs : forall T T1,
-  rd_add T prs = Ok T1 -> nodupb (map snd prs) = true ->
-  forallb (fun p => negb (memb (snd p) (map fst prs))) prs = true ->
-  (forall k, ~ In k (map snd prs) -> lookup k T1 = lookup k T) /\
-  (forall o n, In (o, n) prs -> lookup n T1 = lookup o T).
+Lemma rd_ins_spec T0 prs : forall T T',
+  rd_ins T0 T prs = Ok T' -> nodupb (map snd prs) = true ->
+  (forall k, ~ In k (map snd prs) -> lookup k T' = lookup k T) /\
+  (forall o n, In (o, n) prs -> lookup n T' = lookup o T0).
 Proof.
-  induction prs as [|[o n] t IH]; intros T T1 H ND NO.
+  induction prs as [|[o n] t IH]; intros T T' H ND.
   - inv H. split; auto. intros o n [].
-  - simpl in H. destruct (lookup o T) as [v|] eqn:Eo; [|discriminate].
+  - simpl in H. destruct (lookup o T0) as [v|] eqn:Eo; [|discriminate].
     simpl in ND. apply andb_true_iff in ND as [ND1 ND2]. apply negb_true_iff in ND1. apply memb_false in ND1.
-    cbn [map fst snd forallb] in NO. apply andb_true_iff in NO as [NO1 NO2].
-    apply negb_true_iff in NO1. rewrite memb_cons in NO1. apply orb_false_iff in NO1 as [NO1a NO1b].
-    assert (NO3 : forallb (fun p => negb (memb (snd p) (map fst t))) t = true /\ forall p, In p t -> Nat.eqb (snd p) o = false).
-    { rewrite forallb_forall in NO2. split.
-      - apply forallb_forall. intros p Hp. specialize (NO2 p Hp). apply negb_true_iff in NO2.
-        rewrite memb_cons in NO2. apply orb_false_iff in NO2 as [_ NO2]. rewrite NO2. reflexivity.
-      - intros p Hp. specialize (NO2 p Hp). apply negb_true_iff in NO2.
-        rewrite memb_cons in NO2. apply orb_false_iff in NO2 as [NO2 _]. exact NO2. }
-    destruct NO3 as [NO3 NO4].
-    destruct (IH _ _ H ND2 NO3) as [I1 I2]. split.
+    destruct (IH _ _ H ND2) as [I1 I2]. split.
     + intros k Hk. simpl in Hk. rewrite I1 by tauto. rewrite lookup_aset.
       destruct (Nat.eqb k n) eqn:E; [|reflexivity]. apply Nat.eqb_eq in E. subst. tauto.
     + intros o' n' [Heq|Hin].
       * inv Heq. rewrite I1 by exact ND1. rewrite lookup_aset, Nat.eqb_refl. congruence.
-      * rewrite (I2 _ _ Hin). rewrite lookup_aset.
-        destruct (Nat.eqb o' n) eqn:E; [|reflexivity]. apply Nat.eqb_eq in E. subst.
-        apply memb_false in NO1b. exfalso. apply NO1b. apply in_map_iff. exists (n, n'). auto.
+      * apply I2; auto.
 Qed.
 
 Lemma rd_del_spec prs : forall T k,
@@ -493,19 +479,21 @@ Proof.
   destruct (Nat.eqb k a); [discriminate|]. simpl. apply IH; auto.
 Qed.
 
-Lemma rename_dim_lookup T prs T1 :
-  safe_rename T prs = true -> rd_add T prs = Ok T1 ->
-  forall d x, lookup d T = Some x -> lookup (rn prs d) (rd_del T1 prs) = Some x.
+Lemma rename_dim_lookup T prs T2 :
+  rename_collides T prs = false -> rd_ins T (rd_del T prs) prs = Ok T2 ->
+  forall d x, lookup d T = Some x -> lookup (rn prs d) T2 = Some x.
 Proof.
-  unfold safe_rename. intros S H d x Hd.
-  apply andb_true_iff in S as [S NO]. apply andb_true_iff in S as [ND FR].
-  destruct (rd_add_spec _ _ _ H ND NO) as [A1 A2].
-  unfold rn. rewrite rd_del_spec. destruct (lookup d prs) as [n|] eqn:E.
-  - apply lookup_In in E. rewrite forallb_forall in NO. specialize (NO _ E). simpl in NO.
-    apply negb_true_iff in NO. rewrite NO. rewrite (A2 _ _ E). exact Hd.
-  - rewrite (lookup_None_memb _ _ E). rewrite A1; [exact Hd|].
-    intros Hin. apply in_map_iff in Hin as [[o n] [Hn Hin]]. simpl in Hn; subst.
-    rewrite forallb_forall in FR. specialize (FR _ Hin). simpl in FR. unfold has in FR. rewrite Hd in FR. discriminate.
+  unfold rename_collides. intros S H d x Hd.
+  apply orb_false_iff in S as [ND EX]. apply negb_false_iff in ND.
+  destruct (rd_ins_spec _ _ _ _ H ND) as [A1 A2].
+  unfold rn. destruct (lookup d prs) as [n|] eqn:E.
+  - apply lookup_In in E. rewrite (A2 _ _ E). exact Hd.
+  - pose proof (lookup_None_memb _ _ E) as NO. rewrite A1.
+    + rewrite rd_del_spec, NO. exact Hd.
+    + intros Hin. apply in_map_iff in Hin as [[o n] [Hn Hin]]. simpl in Hn; subst.
+      assert (existsb (fun p => has (snd p) T && negb (memb (snd p) (map fst prs))) prs = true).
+      { apply existsb_exists. exists (o, d). split; auto. simpl. unfold has. rewrite Hd, NO. reflexivity. }
+      congruence.
 Qed.
 
 Lemma dimlen_rename T T2 (r : name -> name) :
@@ -518,10 +506,11 @@ Proof.
 Qed.
 
 Lemma rename_dim_wf f prs f' :
-  wfb f = true -> safe_rename (fdims f) prs = true -> impl_rename_dim f prs = Ok f' -> wfb f' = true.
+  wfb f = true -> impl_rename_dim f prs = Ok f' -> wfb f' = true.
 Proof.
-  intros W S H. unfold impl_rename_dim in H. bindinv H. bindinv H. inv H.
-  destruct (copy_wf _ _ W E) as [W0 E0']. apply wfb_elim in W0 as [W1 W2]. rewrite E0' in *.
+  intros W H. unfold impl_rename_dim in H. bindinv H. bindinv H.
+  destruct (rename_collides (fdims a) prs) eqn:S; [discriminate|]. inv H.
+  destruct (copy_wf _ _ W E) as [W0 E0']. apply wfb_elim in W0 as [W1 W2].
   apply wfb_intro; auto.
   pose proof (rename_dim_lookup _ _ _ S E0) as L.
   clear - W1 L. induction (fvars a) as [|[k v] vs IH]; simpl in *; [reflexivity|].
@@ -538,8 +527,7 @@ Proof.
   - eapply copy_wf; eauto.
   - eapply subset_wf; eauto.
   - eapply rename_var_wf; eauto.
-  - unfold safe_op in S; simpl in S. destruct (safe_rename (fdims f) prs) eqn:E; [|discriminate].
-    eapply rename_dim_wf; eauto.
+  - eapply rename_dim_wf; eauto.
   - eapply insert_wf; eauto.
   - eapply remove_wf; eauto.
   - eapply reorder_wf; eauto.
@@ -549,9 +537,16 @@ Proof.
   - eapply mask_wf; eauto.
   - unfold safe_op in S; simpl in S. destruct (safe_eval f key e) eqn:E; [|discriminate].
     eapply eval_wf; eauto.
-  - unfold safe_op in S; simpl in S. destruct (safe_binop f other) eqn:E; [|discriminate].
-    eapply binop_wf; eauto.
+  - eapply binop_wf; eauto.
   - eapply interp_wf; eauto.
+Qed.
+
+(* every operation except eval: no side condition at all *)
+Theorem step_wf_noeval f o f' :
+  wfb f = true -> (match o with OEval _ _ _ => false | _ => true end) = true -> operands_ok o = true ->
+  step f o = Ok f' -> wfb f' = true.
+Proof.
+  intros W NE Op H. eapply step_wf; eauto. destruct o; try reflexivity; discriminate.
 Qed.
 
 (* ---- operation sequences of any length ----------------------------------------------------------- *)
@@ -621,23 +616,21 @@ Qed.
 Theorem step_unlimited f o f' :
   step f o = Ok f' ->
   match o with
-  | ORenameDim prs => safe_rename (fdims f) prs
-  | OInsert _ _ _ _ _ _ | ORemove _ => true
+  | ORenameDim _ | OInsert _ _ _ _ _ _ | ORemove _ => true
   | _ => keeps_table o
   end = true ->
-  unlim_keptb (fdims f) (fdims f') = true.
+  unlim_kept_op o (fdims f) (fdims f') = true.
 Proof.
   intros H K. destruct o; try discriminate K;
-    try (rewrite (keeps_table_dims _ _ _ K H); apply unlim_refl); simpl in H.
-  - (* renameDimensions, fresh targets *)
-    unfold impl_rename_dim in H. bindinv H. bindinv H. inv H. simpl.
+    try (unfold unlim_kept_op; rewrite (keeps_table_dims _ _ _ K H); apply unlim_refl); simpl in H; unfold unlim_kept_op.
+  - (* renameDimensions: the dimension formerly called d is now (rn d), with the same flag *)
+    unfold impl_rename_dim in H. bindinv H. bindinv H.
+    destruct (rename_collides (fdims a) prs) eqn:S; [discriminate|]. inv H. simpl.
     assert (Ea : fdims a = fdims f) by (unfold impl_copy in E; bindinv E; inv E; reflexivity).
-    rewrite Ea in *. apply unlim_ext. intros k x Hk. rewrite rd_del_spec.
-    destruct (memb k (map fst prs)); [right; reflexivity|left].
-    unfold safe_rename in K. apply andb_true_iff in K as [K NO]. apply andb_true_iff in K as [ND FR].
-    destruct (rd_add_spec _ _ _ E0 ND NO) as [A1 _]. rewrite A1; [exact Hk|].
-    intros Hin. apply in_map_iff in Hin as [[o n] [Hn Hin]]. simpl in Hn; subst.
-    rewrite forallb_forall in FR. specialize (FR _ Hin). simpl in FR. unfold has in FR. rewrite Hk in FR. discriminate.
+    rewrite Ea in *. pose proof (rename_dim_lookup _ _ _ S E0) as L.
+    unfold unlim_renamedb. apply forallb_forall. intros p _.
+    destruct (lookup (fst p) (fdims f)) as [[n u]|] eqn:Ep; [|reflexivity].
+    rewrite (L _ _ Ep). apply eqb_reflx.
   - (* insertDimension *)
     unfold impl_insert in H. bindinv H. inv H. simpl. apply unlim_ext. intros k x Hk.
     destruct (has dk (fdims f)) eqn:Eh; [left; exact Hk|]. left. rewrite lookup_aset.
